@@ -99,7 +99,9 @@ type Struct struct {
 	Fields []*Field // ascending tag order
 }
 
-func (s *Struct) Sort() { sort.SliceStable(s.Fields, func(i, j int) bool { return s.Fields[i].Tag < s.Fields[j].Tag }) }
+func (s *Struct) Sort() {
+	sort.SliceStable(s.Fields, func(i, j int) bool { return s.Fields[i].Tag < s.Fields[j].Tag })
+}
 
 // ---------------------------------------------------------------------------------
 // Generic values:
